@@ -558,3 +558,5 @@ def replay(case):
     if empty or got == exp:
         return None
     return f'{s!r} parsed as {got!r}, reference decoder gives {exp!r}'
+
+MANIFEST['text'] += ' Deliveries also include chunked bodies with an empty or a present Content-Length; request sequences through one application (a streaming handler looks at its request late) are a layer of their own.'
